@@ -253,6 +253,18 @@ def _case(rng: Rng, big):
     if kind == "zeros" and rng.random() < 0.6:
         kind = "rand"
     X = _data(rng, n, m1, m2, kind)
+    # dtype / memory-layout sweep: integer-valued stacks given as int64 / int32 / uint8 / float32 / float64 arrays,
+    # C / Fortran / strided layouts (the float64 C-ordered copy is the reference of the model and the oracle)
+    dtype, layout = "float64", "C"
+    if rng.random() < 0.2:
+        nonneg = rng.random() < 0.5
+        X = [[Fraction(rng.randint(0 if nonneg else -9, 20 if nonneg else 9)) for _ in row] for row in X]
+        if kind == "const":
+            X = [[X[0][0] if X[0][0] != 0 else Fraction(3)] * (m1 * m2) for _ in range(n)]
+        dtype = rng.choice(["int64", "int32", "uint8", "float32", "float64"] if nonneg else ["int64", "int32", "float32", "float64"])
+        kind = kind if kind == "const" else "rand"
+    if rng.random() < 0.3:
+        layout = rng.choice(["F", "strided"])
     tol = rng.choice(TOLS)
     r = rng.random()
     if r < 0.04:
@@ -271,7 +283,7 @@ def _case(rng: Rng, big):
         t2=[rs(x) for x in rng.grid(m2, lo=rng.choice([0, 2]), scale=rng.choice([1, 3]))],
         K=rng.randint(1, 5), tol=tol, max=rng.choice(MAXS), adapt=rng.random() < 0.5,
         ar_v=[10.0 ** a, 10.0 ** b], ar_w=[10.0 ** a2, 10.0 ** b2], pen=pen,
-        pen_seed=rng.subseed(), seed=rng.subseed(),
+        pen_seed=rng.subseed(), seed=rng.subseed(), dtype=dtype, layout=layout,
     )
     return case
 
@@ -287,7 +299,7 @@ def gen_cases(rng: Rng, tier):
         for adapt in (False, True):
             for pattern in SCRIPTS:
                 c = _case(rng, big=False)
-                c.update(max=mx, adapt=adapt, script=pattern, tol=1e-3, K=rng.randint(1, 3), ck="rand")
+                c.update(max=mx, adapt=adapt, script=pattern, tol=1e-3, K=rng.randint(1, 3), ck="rand", dtype="float64")
                 c["X"] = [[rs(x) for x in row] for row in _data(rng, c["n"], c["m1"], c["m2"], "rand")]
                 yield c
 
@@ -366,7 +378,18 @@ def _fit_once(case, normalize, record, est=None):
     X = np.array([[float(F(x)) for x in row] for row in case["X"]]).reshape(n, m1, m2)
     t1 = np.array(fl([F(x) for x in case["t1"]]))
     t2 = np.array(fl([F(x) for x in case["t2"]]))
-    fd = DenseFunctionalData(DenseArgvals({"input_dim_0": t1, "input_dim_1": t2}), DenseValues(X.copy()))
+    Xin = X.astype(case.get("dtype", "float64"))
+    lay = case.get("layout", "C")
+    if lay == "F":
+        Xin = np.asfortranarray(Xin)
+    elif lay == "strided":
+        big = np.zeros((n, m1, 2 * m2), dtype=Xin.dtype)
+        big[:, :, ::2] = Xin
+        Xin = big[:, :, ::2]
+    else:
+        Xin = Xin.copy()
+    fd = DenseFunctionalData(DenseArgvals({"input_dim_0": t1, "input_dim_1": t2}), DenseValues(Xin))
+    _fit_once.last_input = Xin
     calls, inits = [], []
     orig_u, orig_i = fcp_tpa._update_components, fcp_tpa._initialize_vectors
 
@@ -494,7 +517,7 @@ def run_impl(case):
     except Runaway as e:
         return dict(runaway=str(e))
     out["upd_calls"], out["den_calls"] = _fit_once.last_inner
-    counts, ratios, units, ok, zero_resid, zero_contr = _group(case, X, calls, inits)
+    counts, ratios, units, ok, zero_resid, zero_contr = _group(case, np.array(_fit_once.last_input, copy=True, order="K"), calls, inits)
     out["zero_resid"] = zero_resid
     out["zero_contraction"] = bool(zero_contr)
     kf = 0
@@ -539,7 +562,7 @@ def run_impl(case):
     except Exception as e:  # noqa: BLE001
         out["bad_method"] = type(e).__name__
     out["finite"] = bool(np.isfinite(S).all() and np.isfinite(E).all())
-    out["data_unchanged"] = bool(np.array_equal(np.asarray(fd.values), X, equal_nan=True))
+    out["data_unchanged"] = bool(np.array_equal(np.asarray(fd.values), X) and np.asarray(fd.values).dtype == np.dtype(case.get("dtype", "float64")))
     # --- same global seed again: identical results
     est2, _, _, calls2, _, _ = _fit_once(case, False, False)
     S2, E2 = np.asarray(est2.transform(fd, method="FCPTPA")), np.asarray(est2.eigenfunctions.values)
@@ -915,7 +938,7 @@ def nontrivial(case, impl):
 
 
 def classify(case, impl):
-    tags = ["kind:" + ("scripted:" + case["script"] if case.get("script") else "fit"), "content:" + case["ck"], "pen:" + case["pen"], f"adapt:{case['adapt']}",
+    tags = ["kind:" + ("scripted:" + case["script"] if case.get("script") else "fit"), "dtype:" + case.get("dtype", "float64"), "layout:" + case.get("layout", "C"), "content:" + case["ck"], "pen:" + case["pen"], f"adapt:{case['adapt']}",
             "max:" + ("0" if case["max"] == 0 else "1" if case["max"] == 1 else "2-5" if case["max"] <= 5 else "6+"),
             f"K:{case['K']}"]
     if "__crash__" in impl or "runaway" in impl:
